@@ -473,6 +473,13 @@ def oracle(ctx: Ctx, deep: bool = False):
         if not ok:
             yield Violation("simulate-not-normalised", f"simulate_sensitivity_maps: sum over coils of S* S != 1 ({obs})",
                             {"op": "simulate", "shape": shp, "num_coils": nc, "var": var, "seed": seed})
+    # (7) the real `compute_sensitivity_map` through real engines with tiny real sensitivity networks (2-D, 3-D,
+    #     2-D network applied slice by slice), directly and through `forward_function`
+    yield from oracle_real_engines(ctx, deep)
+    # (8) JointICNet normalises its maps itself: observe every map it hands to its forward operator
+    yield from oracle_jointicnet(ctx, deep)
+    # (9) the option matrix of `build_mri_transforms` (what a config can request): type x gaussian x 2-D/3-D x coils x pad_coils
+    yield from oracle_pipeline(ctx, deep)
     # (6) documentation of the stated partial: outside 2^±60 the squared sum over/underflows (not a violation)
     for e in (-80, 70):
         k = _rand_coil_data(rng, [1, 2, 4, 4, 2], e)
@@ -486,6 +493,177 @@ def oracle(ctx: Ctx, deep: bool = False):
                          f"sum|S|^2 in [{float(s.min()):.3g}, {float(s.max()):.3g}]")
 
 
+def _tiny_sens_models(kind: str):
+    from direct.nn.unet.unet_2d import NormUnetModel2d, UnetModel2d
+    from direct.nn.unet.unet_3d import UnetModel3d
+    if kind == "unet2d":
+        return {"sensitivity_model": UnetModel2d(2, 2, 2, 1, 0.0)}
+    if kind == "normunet2d":
+        return {"sensitivity_model": NormUnetModel2d(2, 2, 2, 1, 0.0)}
+    if kind == "unet3d":
+        return {"sensitivity_model_3d": UnetModel3d(2, 2, 2, 1, 0.0)}
+    return {}
+
+
+def real_engine_case(engine: str, sens_kind: str, seed: int, via_forward_function: bool):
+    """-> (key, what) or None: unit-or-zero + finiteness of the map a real engine computes"""
+    from omegaconf import OmegaConf
+    from direct.config.defaults import DefaultConfig
+    from direct.nn.lpd.lpd import LPDNet
+    from direct.nn.lpd.lpd_engine import LPDNetEngine
+    from direct.nn.vsharp.vsharp import VSharpNet, VSharpNet3D
+    from direct.nn.vsharp.vsharp_engine import VSharpNet3DEngine, VSharpNetEngine
+    import direct.data.transforms as T
+
+    torch.manual_seed(seed)
+    g = torch.Generator().manual_seed(seed)
+    three_d = engine == "VSharpNet3DEngine"
+    un = dict(image_unet_num_filters=2, image_unet_num_pool_layers=1)
+    if engine == "VSharpNetEngine":
+        model = VSharpNet(T.fft2, T.ifft2, num_steps=1, num_steps_dc_gd=1, no_parameter_sharing=False, initializer_channels=(2, 2),
+                          initializer_dilations=(1, 1), auxiliary_steps=-1, **un)
+        cls = VSharpNetEngine
+    elif engine == "VSharpNet3DEngine":
+        model = VSharpNet3D(T.fft2, T.ifft2, num_steps=1, num_steps_dc_gd=1, no_parameter_sharing=False, initializer_channels=(2, 2),
+                            initializer_dilations=(1, 1), auxiliary_steps=-1, unet_num_filters=2, unet_num_pool_layers=1)
+        cls = VSharpNet3DEngine
+    else:
+        model = LPDNet(T.fft2, T.ifft2, num_iter=1, num_primal=2, num_dual=2, primal_model_architecture="UNET",
+                       dual_model_architecture="CONV", primal_unet_num_filters=2, primal_unet_num_pool_layers=1)
+        cls = LPDNetEngine
+    models = _tiny_sens_models(sens_kind)
+    eng = cls(OmegaConf.structured(DefaultConfig), model.eval(), "cpu", T.fft2, T.ifft2, **models)
+    for mm in models.values():
+        mm.eval()
+    eng.ndim = 3 if three_d else 2
+    b, c = 1 + seed % 2, [1, 2, 3, 4][seed % 4]
+    shape = [b, c] + ([2 + seed % 2] if three_d else []) + [8, 8, 2]
+    S = torch.randn(shape, generator=g) * (2.0 ** [0, -30, 30, 0][seed % 4])
+    if seed % 3 == 0 and c > 1:
+        S[:, 0] = 0
+    if seed % 5 == 0:
+        S[..., :2, :, :] = 0
+    with torch.no_grad():
+        if via_forward_function:
+            mshape = [b, 1] + ([1] if three_d else []) + [8, 8, 1]
+            m = torch.rand(mshape, generator=g) < 0.6
+            y = torch.where(m, torch.randn(shape, generator=g), torch.tensor([0.0]))
+            data = {"masked_kspace": y, "sampling_mask": m, "sensitivity_map": S.clone()}
+            eng.forward_function(data)
+            out = data["sensitivity_map"]
+        else:
+            out = eng.compute_sensitivity_map(S.clone())
+    refined = bool(models) and c > 1
+    return check_map(out, None if refined else S, f"real-engine-{engine}")
+
+
+REAL_ENGINE_CONFIGS = [("VSharpNetEngine", "unet2d"), ("VSharpNetEngine", "normunet2d"), ("VSharpNetEngine", "none"),
+                       ("VSharpNet3DEngine", "unet3d"), ("VSharpNet3DEngine", "unet2d"), ("VSharpNet3DEngine", "none"),
+                       ("LPDNetEngine", "unet2d"), ("LPDNetEngine", "none")]
+
+
+def oracle_real_engines(ctx: Ctx, deep: bool):
+    rng = ctx.rng
+    for engine, sk in REAL_ENGINE_CONFIGS:
+        for j in range(ctx.budget(3, 30) * (2 if deep else 1)):
+            seed = rng.randrange(1, 2 ** 20)
+            via = j % 2 == 1
+            ctx.count(("o-real-engine", engine, sk, seed, via), True,
+                      bucket=f"oracle/real-engine/{engine}/{sk}" + ("/forward_function" if via else ""))
+            try:
+                res = real_engine_case(engine, sk, seed, via)
+            except Exception as e:  # noqa: BLE001
+                res = (f"real-engine-{engine}-raises", f"{engine} ({sk}) raises {err_name(e)}: {str(e)[:200]}")
+            if res:
+                yield Violation(res[0], res[1], {"op": "real_engine", "engine": engine, "sens": sk, "seed": seed, "via": via})
+
+
+def jointicnet_case(seed: int):
+    from direct.nn.jointicnet.jointicnet import JointICNet
+    import direct.data.transforms as T
+
+    torch.manual_seed(seed)
+    g = torch.Generator().manual_seed(seed)
+    n, c = 1 + seed % 2, [1, 2, 3][seed % 3]
+    shape = [n, c, 8, 8, 2]
+    net = JointICNet(T.fft2, T.ifft2, 2, bool(seed % 2), image_unet_num_filters=2, image_unet_num_pool_layers=1,
+                     kspace_unet_num_filters=2, kspace_unet_num_pool_layers=1, sens_unet_num_filters=2,
+                     sens_unet_num_pool_layers=1).eval()
+    seen = []
+    orig = net._forward_operator
+
+    def rec(image, sampling_mask, sensitivity_map):
+        seen.append(sensitivity_map.detach().clone())
+        return orig(image, sampling_mask, sensitivity_map)
+    net._forward_operator = rec
+    m = torch.rand([n, 1, 8, 8, 1], generator=g) < 0.6
+    y = torch.where(m, torch.randn(shape, generator=g), torch.tensor([0.0]))
+    S = torch.randn(shape, generator=g)
+    with torch.no_grad():
+        net(y, m, S)
+    if len(seen) < 2:
+        return ("jointicnet-no-maps", "JointICNet never used a normalised map")
+    for t in seen[1:]:          # the first one is the caller's map, all later ones were normalised by the network
+        r = check_map(t, None, "jointicnet")
+        if r:
+            return r
+    return None
+
+
+def oracle_jointicnet(ctx: Ctx, deep: bool):
+    for j in range(ctx.budget(6, 60)):
+        seed = ctx.rng.randrange(1, 2 ** 20)
+        ctx.count(("o-jointicnet", seed), seed % 3 != 0, bucket="oracle/own-normalisation/JointICNet")
+        try:
+            res = jointicnet_case(seed)
+        except Exception as e:  # noqa: BLE001
+            res = ("jointicnet-raises", f"JointICNet raises {err_name(e)}: {str(e)[:200]}")
+        if res:
+            yield Violation(res[0], res[1], {"op": "jointicnet", "seed": seed})
+
+
+def pipeline_case(typ: str, sigma, three_d: bool, coils: int, pad_coils, zero_rows: bool, seed: int):
+    from direct.common.subsample import FastMRIEquispacedMaskFunc, FastMRIRandomMaskFunc
+    from direct.data.mri_transforms import SensitivityMapType, build_mri_transforms
+    import direct.data.transforms as T
+
+    rs = np.random.RandomState(seed)
+    acc, cf = [(2, 0.25), (3, 0.2), (4, 0.1)][seed % 3]          # feasible (acceleration, centre fraction) pairs for width >= 16
+    mf = (FastMRIRandomMaskFunc if seed % 2 else FastMRIEquispacedMaskFunc)(accelerations=[acc], center_fractions=[cf])
+    tr = build_mri_transforms(T.fft2, T.ifft2, mf, estimate_sensitivity_maps=True, sensitivity_maps_type=SensitivityMapType(typ),
+                              sensitivity_maps_gaussian=sigma, pad_coils=pad_coils, use_seed=True)
+    shape = (coils,) + ((2,) if three_d else ()) + (8 + 2 * (seed % 3), 16 + seed % 4)
+    ks = ((rs.randn(*shape) + 1j * rs.randn(*shape)) * 10.0 ** [0, -4, 4][seed % 3]).astype(np.complex64)
+    if zero_rows:
+        ks[..., :2, :] = 0
+        ks[..., :, -3:] = 0
+    out = tr({"kspace": ks, "filename": "f", "slice_no": 0})
+    S = out["sensitivity_map"]
+    expect_coils = max(coils, pad_coils or 0)
+    if S.shape[0] != expect_coils:
+        return ("pipeline-coil-count", f"sensitivity map has {S.shape[0]} coils, expected {expect_coils}")
+    return check_map(S.unsqueeze(0), None, "pipeline")
+
+
+def oracle_pipeline(ctx: Ctx, deep: bool):
+    rng = ctx.rng
+    combos = [(typ, sigma, three_d) for typ in ("rss_estimate", "unit") for sigma in (None, 0.0, 0.5, 2.0) for three_d in (False, True)]
+    reps = ctx.budget(1, 8)
+    for typ, sigma, three_d in combos:
+        for _ in range(reps):
+            coils, pad_coils = rng.choice([1, 2, 3, 5]), rng.choice([None, None, 6])
+            zero_rows, seed = rng.random() < 0.4, rng.randrange(1, 2 ** 20)
+            ctx.count(("o-pipeline", typ, sigma, three_d, coils, pad_coils, zero_rows, seed), True,
+                      bucket=f"oracle/pipeline/{typ}/gaussian={sigma}/{'3d' if three_d else '2d'}" + ("/pad_coils" if pad_coils else ""))
+            try:
+                res = pipeline_case(typ, sigma, three_d, coils, pad_coils, zero_rows, seed)
+            except Exception as e:  # noqa: BLE001
+                res = ("pipeline-raises", f"build_mri_transforms pipeline raises {err_name(e)}: {str(e)[:200]}")
+            if res:
+                yield Violation(res[0], res[1], {"op": "pipeline", "typ": typ, "sigma": sigma, "three_d": three_d, "coils": coils,
+                                                 "pad_coils": pad_coils, "zero_rows": zero_rows, "seed": seed})
+
+
 def replay(rep: dict) -> bool:
     import direct.data.transforms as T
     from direct.data.mri_transforms import EstimateSensitivityMapModule, SensitivityMapType
@@ -493,6 +671,13 @@ def replay(rep: dict) -> bool:
 
     op = rep.get("op")
     try:
+        if op == "real_engine":
+            return real_engine_case(rep["engine"], rep["sens"], rep["seed"], rep["via"]) is not None
+        if op == "jointicnet":
+            return jointicnet_case(rep["seed"]) is not None
+        if op == "pipeline":
+            return pipeline_case(rep["typ"], rep["sigma"], rep["three_d"], rep["coils"], rep["pad_coils"], rep["zero_rows"],
+                                 rep["seed"]) is not None
         if op == "estimate":
             mod = EstimateSensitivityMapModule(backward_operator=T.ifft2, type_of_map=SensitivityMapType.RSS_ESTIMATE,
                                                gaussian_sigma=rep["sigma"])
